@@ -13,7 +13,7 @@
 //   CP cid sid key  CC key  CB cid sid key  CF           (commit worker; CB/CF = the two halves of
 //                                                          proposalShard.committed, replay only)
 //   XR  XP k  XC  XS  XL                                 (node.close(), table by table)
-//   XQ cid sid key to pick    close of the shard of key gets the shard lock while a propose(key) is under way
+//   XQ cid sid key to pick    propose(key) held before its first shard-lock section (queue / table inspected), then close of its shard
 // observation: one line per case, one token per op: <what>=<table sizes>.
 package main
 
@@ -72,6 +72,7 @@ type world struct {
 	lqOut     bool
 	assumeBad bool // the case itself broke an environment assumption (double close ...)
 	clockStuck string
+	earlyEnqueue string
 	committed map[string]bool
 }
 
@@ -373,7 +374,9 @@ func (w *world) doOp(f []string) string {
 		w.committed[k] = true
 		v.CommittedConfigChange(w.real(w.ccKey, u(f[1])))
 	case "XQ":
-		// proposalShard.close() wins the shard lock against a propose() that is already under way
+		// a propose() is held before its first shard-lock section (the harness owns the lock and
+		// looks whether the entry is already queued while the request is not yet registered), then
+		// runs to its end alone; then the shard is closed. Compared observation = propose ; close.
 		cid, sid, key, to := u(f[1]), u(f[2]), u(f[3]), u(f[4])
 		name := fmt.Sprintf("XP %d", key%w.ps)
 		if w.closed[name] {
@@ -381,14 +384,24 @@ func (w *world) doOp(f []string) string {
 		}
 		w.closed[name] = true
 		w.closedAny = true
-		rs, err := v.CloseRacingPropose(cid, sid, key, to)
-		code := dragonboat.VerifC12ErrCode(err)
-		if to == 0 {
-			return fmt.Sprintf("XQ-:%d", code)
+		var rs *dragonboat.RequestState
+		var err error
+		var early bool
+		// the request is recorded before close() can panic (double close)
+		rec := func() string {
+			code := dragonboat.VerifC12ErrCode(err)
+			if to == 0 {
+				return fmt.Sprintf("XQ-:%d", code)
+			}
+			r := w.accept('P', rs, err == nil, to)
+			r.nc, r.cid, r.sid, r.key = w.nc, cid, sid, key
+			return fmt.Sprintf("XQ%d:%d", len(w.reqs)-1, code)
 		}
-		r := w.accept('P', rs, err == nil, to)
-		r.nc, r.cid, r.sid, r.key = w.nc, cid, sid, key
-		return fmt.Sprintf("XQ%d:%d", len(w.reqs)-1, code)
+		rs, err, early = v.ProposeHeldThenClose(cid, sid, key, to)
+		if early {
+			w.earlyEnqueue = fmt.Sprintf("propose(key %d) handed the entry to the proposal queue before the request was in the pending table: a close() of the shard in that window loses the accepted request (no Terminated, no Timeout)", key)
+		}
+		return rec()
 	case "XR", "XC", "XS", "XL", "XP":
 		name := strings.Join(f, " ")
 		if f[0] == "XP" {
@@ -681,6 +694,9 @@ func runCase(line string, st *vh.Stats) string {
 		// ---- property monitor (implementation alone) ----
 		if w.clockStuck != "" {
 			st.Violation(id, w.clockStuck)
+		}
+		if w.earlyEnqueue != "" {
+			st.Violation(id, w.earlyEnqueue)
 		}
 		if !w.assumeBad {
 			if p := w.finale(); p != "" {
